@@ -69,6 +69,19 @@ let handle (cf : cfg) (line : string) : string option =
       let out = ser_fmt cf (int_of_string fmt) v in
       let n = List.length out in
       Some (Printf.sprintf "%s %d %d %s" (hex_of_bytes out) n n (dump v))
+  | ["BIG"; shape; n] ->
+      let n = int_of_string n in
+      let v = match shape with
+        | "arr-nil" -> JArr (List.init n (fun _ -> JNull))
+        | "arr-int" -> JArr (List.init n (fun i -> JInt (z_of_int (i mod 7))))
+        | "map-int" -> JObj (List.init n (fun i -> (List.map (fun c -> n_of_int (Char.code c)) (List.of_seq (String.to_seq ("k" ^ string_of_int i))), JInt (z_of_int (i mod 7)))))
+        | _ -> failwith "bad shape" in
+      let summary out =
+        let h = ref 0xcbf29ce484222325L in
+        List.iter (fun b -> h := Int64.mul (Int64.logxor !h (Int64.of_int (int_of_n b))) 0x100000001b3L) out;
+        let rec take k l = match l with x :: r when k > 0 -> x :: take (k - 1) r | _ -> [] in
+        Printf.sprintf "%s %d %s" (hex_of_bytes (take 8 out)) (List.length out) (Printf.sprintf "%Lu" !h) in
+      Some (Printf.sprintf "%s %s size=%d" (summary (ser_fmt cf 2 v)) (summary (ser_fmt cf 0 v)) n)
   | ["B"; fmt; cap; d] ->
       let fmt = int_of_string fmt in
       let v = parse_dump cf d in
